@@ -49,7 +49,12 @@ pub fn check_bytes(b: &[u8]) -> (Vec<Finding>, bool) {
                         for (tag, d) in diff(&o, &o2) {
                             let tag = if tag == "header.rcode" {
                                 let name = |r: u16| if r == RCODE_RESERVED { "reserved".to_string() } else { r.to_string() };
-                                format!("header.rcode|{}->{}|opt={}", name(o.rcode), name(o2.rcode), o.opt.is_some())
+                                if o.rcode == RCODE_RESERVED {
+                                    // the library showed "Reserved" and wrote some other code: which one is incidental
+                                    format!("header.rcode|reserved-not-preserved|opt={}", o.opt.is_some())
+                                } else {
+                                    format!("header.rcode|{}->{}|opt={}", name(o.rcode), name(o2.rcode), o.opt.is_some())
+                                }
                             } else {
                                 tag
                             };
